@@ -41,7 +41,7 @@ type mstate struct {
 }
 
 type state struct {
-	Parts []int32           `json:"parts"`
+	Parts []int32          `json:"parts"`
 	M     [maxSlots]mstate `json:"members"`
 }
 
